@@ -1835,6 +1835,26 @@ example (o : Opts) : ∃ t fuel, ∀ fuel' ≥ fuel, copyTree fuel' t = .ok (res
   obtain ⟨t, _, hb, _⟩ := buildVal_toObj o jsonStoreVal plain_jsonStoreVal.1
   exact ⟨t, copy_eq o jsonStoreVal plain_jsonStoreVal.1 t hb⟩
 
+-- [audit 2, G-18-1] non-finite floats are INSIDE the domain of `copy_eq`: `[nan, inf, -0.0]` (the cells exactly as the stream
+-- encodes them: `eqc` = the class of `LeafNode.__eq__`, which since graphtage 8b61c77 puts every NaN into one class;
+-- `num` with denominator 0 = non-finite).  The same inputs run on the real code in every check (`_edge_cases` of the stream),
+-- where `copy() == tree` is monitored directly.
+def nanS : Scalar := ⟨.float, "nan", "nan", "nan", some (0, 0), none⟩
+def infS : Scalar := ⟨.float, "inf", "n:inf", "inf", some (1, 0), none⟩
+def negZeroS : Scalar := ⟨.float, "-0x0.0p+0", "n:0/1", "-0.0", some (0, 1), none⟩
+def nanListV : PyVal :=
+  .list ["list", "object"] [.scalar ["float", "object"] nanS, .scalar ["float", "object"] infS, .scalar ["float", "object"] negZeroS]
+theorem plain_nanListV : Plain nanListV := by
+  simp [nanListV, Plain, PlainList, nanS, infS, negZeroS]
+example (o : Opts) : ∃ t fuel, buildVal o nanListV = .ok t ∧ ∀ fuel' ≥ fuel, copyTree fuel' t = .ok (reset t) ∧
+    Tree.pyEq (reset t) t = true ∧ toObj (reset t) = toObj t := by
+  obtain ⟨t, _, hb, _⟩ := buildVal_toObj o nanListV plain_nanListV
+  obtain ⟨f, hf⟩ := copy_eq o nanListV plain_nanListV t hb
+  exact ⟨t, f, hb, hf⟩
+-- `<` on the non-finite floats as Python computes it (used by the key sort of `DictNode.from_dict`)
+example : scalarLt nanS infS = false ∧ scalarLt infS nanS = false ∧ scalarLt negZeroS infS = true ∧ scalarLt infS negZeroS = false ∧
+    scalarLt ⟨.float, "-inf", "n:-inf", "-inf", some (-1, 0), none⟩ infS = true ∧ scalarLt infS infS = false := by decide
+
 -- [audit] non-vacuity: standard MROs in both generated tables, a store with a set, mutual / dict-valued cycles,
 -- and a witness that the `∃ be, e = .build be` disjunct of `cycle_detected` is needed
 
